@@ -3,6 +3,7 @@ package conf
 import (
 	"fmt"
 	"reflect"
+	"sort"
 
 	"github.com/antonmedv/expr/ast"
 	"github.com/antonmedv/expr/vm"
@@ -48,7 +49,15 @@ func New(env interface{}) *Config {
 func (c *Config) Check() error {
 	// Check that all functions that define operator overloading
 	// exist in environment and have correct signatures.
-	for op, fns := range c.Operators {
+	// Operators are checked in a fixed order: with several invalid entries
+	// the reported one must not depend on the iteration order of the map.
+	ops := make([]string, 0, len(c.Operators))
+	for op := range c.Operators {
+		ops = append(ops, op)
+	}
+	sort.Strings(ops)
+	for _, op := range ops {
+		fns := c.Operators[op]
 		for _, fn := range fns {
 			fnType, ok := c.Types[fn]
 			if !ok || fnType.Type == nil || fnType.Type.Kind() != reflect.Func {
@@ -65,7 +74,13 @@ func (c *Config) Check() error {
 	}
 
 	// Check that all ConstExprFns are functions.
-	for name, fn := range c.ConstExprFns {
+	names := make([]string, 0, len(c.ConstExprFns))
+	for name := range c.ConstExprFns {
+		names = append(names, name)
+	}
+	sort.Strings(names)
+	for _, name := range names {
+		fn := c.ConstExprFns[name]
 		if fn.Kind() != reflect.Func {
 			return fmt.Errorf("const expression %q must be a function", name)
 		}
